@@ -119,6 +119,20 @@ CHECKS = {
                      "live-set of lifetime-tracked elements == stored elements after every transition, allocator ledger, ASan. SimpleVector in its three modes: construct, resize, "
                      "destroy, fill, move construct/assign, swap with exact element ledger in Normal mode.",
                 note="driver never exceeds max_size / pops an empty buffer (documented contract); documented reduction rules R1-R5 bound the two-buffer product"),
+    "C08": dict(engine="venum", technique=E3, design="4/C08",
+                text="Every tuple of m non-empty sorted sequences over 3 keys (m<=3 full product of lengths 1..6 quick / 1..9 thorough, m=4,5 within total caps, very unequal "
+                     "pairs/triples such as (1,17),(16,3),(1,1,17),(1,33)), every rank 0..N for multisequence_partition and 0..N-1 for multisequence_selection, comparators "
+                     "less (ascending inputs) and greater (descending): offsets sum to rank, max(left) <= min(right), the split is exactly the one induced by the "
+                     "(value, sequence index) order (tie-break), selected value and offset among equivalents; elements are (key,tag) so equivalence is not identity; "
+                     "exact-size heap blocks under ASan. 3.4e7 cases quick / 5.6e8 thorough.",
+                note="key alphabet of 3; stated m / length caps; selection only for rank < N (documented contract)"),
+    "C13": dict(engine="vhist", technique=E2, design="4/C13",
+                text="DAryHeap (arity 1..4 quick / 1..8 thorough, less/greater/external priority table): BFS closure over push/pop/extract_top/clear/update_all/build_heap "
+                     "(3 overloads, on empty and non-empty heaps) with keys 0..4 twice each; DAryAddressableIntHeap: closure over push/pop/extract_top/remove(k)/update(k) after "
+                     "raising or lowering priorities/update_all/build_heap/clear on unique keys with priorities {0,1,2}, contains(k) for all k after every op, plus a seeded family "
+                     "reaching remove()'s sift-up; RadixHeap: 8 key types x radix {2,4,8,16,64}, 11-key alphabet incl. extremes, BFS depth 5/6 with canonical-state de-duplication, "
+                     "every new state drained twice (top/pop and swap_top_bucket) against the sorted model, in an asserts-on and an NDEBUG build. Size, top, sanity_check, drain order.",
+                note="RadixHeap histories are depth-bounded; keys below the key last returned by top() are only driven in the separate known-finding run (tlx documents top() as raising the insertion limit)"),
 }
 
 NA = {}
